@@ -22,7 +22,7 @@ use std::sync::{Arc, Barrier};
 use std::time::Duration;
 
 const MODEL: &str = include_str!("../../data/c20_model.dmn");
-const INVOCABLES: [&str; 6] = ["Num", "Temp", "Re", "Table", "Chain", "Svc"];
+const INVOCABLES: [&str; 7] = ["Num", "Temp", "Re", "ReHeavy", "Table", "Chain", "Svc"];
 const INPUTS: usize = 64;
 
 fn input(i: usize) -> FeelContext {
@@ -193,7 +193,7 @@ pub fn check(mut ctx: Ctx, replay: Option<J>) -> ! {
     let reps = if quick { 3 } else { 25 };
     for n in [2u64, 4, 8, 16] {
       for _ in 0..reps {
-        runs.push(json!({"mode": "run", "n": n, "calls": if quick { 150 } else { 400 }, "seed": rng.next()}));
+        runs.push(json!({"mode": "run", "n": n, "calls": if quick { 1000 } else { 4000 }, "seed": rng.next()}));
       }
     }
   }
@@ -207,15 +207,15 @@ pub fn check(mut ctx: Ctx, replay: Option<J>) -> ! {
     calls += events.len() as u64;
     recs.push(json!({"n": run["n"], "calls": run["calls"], "seed": run["seed"], "death": death, "poisoned": res["poisoned"] == true, "events": events}));
   }
-  if replay.is_none() {
+  if let (true, Some(healthy)) = (replay.is_none(), recs.iter().find(|r| r["death"] == "" && r["events"].as_array().map_or(0, |a| a.len()) > 4)) {
     // self-test: one changed value and one lost call must be rejected
-    let mut a = recs[0].clone();
+    let mut a = healthy.clone();
     a["events"][3][4] = json!("changed");
-    let mut b = recs[0].clone();
+    let mut b = healthy.clone();
     if let Some(ev) = b["events"].as_array_mut() {
       ev.pop();
     }
-    let mut c = recs[0].clone();
+    let mut c = healthy.clone();
     c["death"] = json!("timeout");
     let out = tlc.judge("Trace_C20", "Trace_C20.cfg", &[a, b, c], 1, 300, &[("SEQ", &seq_env)]);
     if !out.ok || out.rejects.len() != 3 {
@@ -287,7 +287,7 @@ pub fn check(mut ctx: Ctx, replay: Option<J>) -> ! {
   ctx.cov("traces_validated_against_impl", json!(recs.len()));
   ctx.cov("concurrent_runs", json!(recs.len()));
   ctx.cov("calls_compared", json!(calls));
-  ctx.cov("rule", json!("design: Concurrent.tla for the as-built lock pattern under reader- and writer-preferring semantics (must hold) and for two counter-designs (must fail); runs: 2/4/8/16 threads x seeded call sequences over 6 invocables x 64 inputs, every value compared by TLC with the value of the same call made alone; prediction: every interleaving of the lock operations hook H4 recorded for 2 (thorough: 3) threads"));
+  ctx.cov("rule", json!("design: Concurrent.tla for the as-built lock pattern under reader- and writer-preferring semantics (must hold) and for two counter-designs (must fail); runs: 2/4/8/16 threads x seeded call sequences over 7 invocables x 64 inputs, every value compared by TLC with the value of the same call made alone; prediction: every interleaving of the lock operations hook H4 recorded for 2 (thorough: 3) threads"));
   ctx.sample(json!({"n": recs[0]["n"], "seed": recs[0]["seed"], "first_events": recs[0]["events"].as_array().map(|a| a.iter().take(3).cloned().collect::<Vec<_>>())}));
   ctx.assume("real schedules are sampled (seeded start barriers, yields, spins), not enumerated; TLC enumerates the interleavings of the model and of the recorded lock scripts");
   ctx.assume("hook H4 (traced RwLock) is compiled in; the runs with value comparison leave the lock trace switched off");
